@@ -164,7 +164,7 @@ def _pres_jobs(tier, seed):
         inst += [("dead", [k, list(sk)]) for k in (P1, PR) for sk in itertools.product("DCABF", repeat=2)]
         inst += [("dead", [k, list(sk)]) for k in (P1, PR) for sk in (("D", "D", "A"), ("D", "A", "D"), ("A", "D", "D"), ("D", "F", "A"))]
         inst += [("orphans", [o]) for o in (0, 1, 2)]
-        inst += [("big_rewards", [P1, [0, 1, 2]]), ("big_rewards", [P2, [0, 1, 2]]), ("dup_actions", []), ("p1_final", [P1]), ("decimals", [])]
+        inst += [("order_sum", []), ("zero_dead", []), ("big_rewards", [P1, [0, 1, 2]]), ("big_rewards", [P2, [0, 1, 2]]), ("dup_actions", []), ("p1_final", [P1]), ("decimals", [])]
         nperm = 2
     else:
         inst = _stopping_instances("thorough")
